@@ -178,6 +178,20 @@ class RSocket(vnet.VSocket):
                 p.close()
         return True
 
+    def makefile(self, *a, **kw):
+        f = super().makefile(*a, **kw)
+        s = self._net.sched
+        return CoopFile(f, self._net) if (s is not None and s.concurrent) else f
+
+    def _pending_data(self):
+        import fcntl
+        import struct
+        import termios
+        try:
+            return struct.unpack("i", fcntl.ioctl(self.fileno(), termios.FIONREAD, b"\0\0\0\0"))[0] > 0
+        except OSError:
+            return False
+
     def shutdown(self, how):
         s = self._net.sched
         if s is not None:
@@ -206,6 +220,65 @@ class RSocket(vnet.VSocket):
         got = socket.socket.recv_into(self, mv[:n], n)
         self._net.log.append(("RECV", self._cid, got))
         return got
+
+
+class CoopFile:
+    """The buffered file http.client reads from, with its internal lock made cooperative: a thread that would block on
+    the BufferedReader's lock (close / flush while another thread is inside a read that waits for the socket) parks in
+    the scheduler instead.  Same semantics otherwise."""
+
+    def __init__(self, real, net):
+        self._r, self._net, self.owner = real, net, None
+
+    def _wait(self):
+        s = self._net.sched
+        if s is not None and s.concurrent:
+            me = s.me()
+            if me is not None and self.owner is not None and self.owner != me:
+                s.block_buf(self)
+            return me
+        return None
+
+    def _hold(self, fn, *a):
+        me = self._wait()
+        prev, self.owner = self.owner, me
+        try:
+            return fn(*a)
+        finally:
+            self.owner = prev
+
+    def read(self, *a):
+        return self._hold(self._r.read, *a)
+
+    def read1(self, *a):
+        return self._hold(self._r.read1, *a)
+
+    def readinto(self, *a):
+        return self._hold(self._r.readinto, *a)
+
+    def readinto1(self, *a):
+        return self._hold(self._r.readinto1, *a)
+
+    def readline(self, *a):
+        return self._hold(self._r.readline, *a)
+
+    def peek(self, *a):
+        return self._hold(self._r.peek, *a)
+
+    def flush(self):
+        self._wait()
+        return self._r.flush()
+
+    def close(self):
+        self._wait()
+        return self._r.close()
+
+    @property
+    def closed(self):
+        return self._r.closed
+
+    def __getattr__(self, name):
+        return getattr(self._r, name)
 
 
 class RNet(vnet.Net):
@@ -599,4 +672,223 @@ def validate(traces, eager, fixes=()):
             done = int(ln.split("|")[1])
     if done != len(traces) or len(out) != len(traces):
         raise tlc.MachineryError(f"RespLife_Trace returned {len(out)} verdicts (DONE={done}) for {len(traces)} traces:\n{r.out[-3000:]}")
+    return out
+
+
+# ------------------------------------------------------------------------------------------ sequential part
+_FROZEN = [False]
+
+
+def _freeze():
+    """Full collections are part of every run (drop + gc); make them scan only what the run created."""
+    if not _FROZEN[0]:
+        run_seq({"fr": "cl", "sv": "ka", "mode": "stream"}, [])
+        gc.collect()
+        gc.freeze()
+        _FROZEN[0] = True
+
+
+SNAP_KEYS = {"own": 1, "shutset": 2, "hfp": 5, "csock": 7, "sock": 8, "slots": 12, "pooled": 13, "puts": 14, "deliv": 15}
+
+
+def _compare_expected(tr, exp):
+    """TLC's expected observation at every call boundary against the real run: None or a text (drift)."""
+    bounds = [i for i, st in enumerate(tr["steps"]) if tr["obs"][i + 1][22] in ("Idle", "Done")]
+    if len(bounds) != len(exp):
+        return f"{len(bounds)} calls completed, the model expected {len(exp)}"
+    for k, (i, e) in enumerate(zip(bounds, exp)):
+        o = tr["obs"][i + 1]
+        got = {"op": o[23], "res": o[24], "errk": o[25]}
+        got.update({key: o[idx] for key, idx in SNAP_KEYS.items()})
+        for key in e:
+            if got.get(key) != e[key]:
+                return f"call {k + 1} ({e['op']}): {key} = {got.get(key)!r}, the model expected {e[key]!r}"
+    return None
+
+
+def _seq_worker(arg):
+    """Replay a chunk of call sequences on the real code, have TLC judge the traces; returns per sequence
+    (id, scn, ops, verdict, expected-mismatch)."""
+    chunk, fixes = arg
+    _freeze()
+    traces, out = [], []
+    for sid, scn, ops, exp in chunk:
+        tr = run_seq(scn, ops)
+        tr["id"] = sid
+        mism = _compare_expected(tr, exp) if exp is not None else None
+        out.append([sid, scn, list(ops), None, mism, len(tr["obs"]), tr["probe"]])
+        traces.append(tr)
+    v = validate(traces, True, fixes)
+    for rec in out:
+        rec[3] = v[rec[0]]
+    return out
+
+
+# ------------------------------------------------------------------------------------------ two-thread part
+class Sched:
+    """Cooperative scheduler over REAL threads: exactly one runs at a time; a thread parks at every yield point and is
+    resumed only when the step it is about to take can complete (socket readable / buffered file free)."""
+    concurrent = True
+
+    def __init__(self, ctx):
+        self.ctx = ctx
+        self.main = _thread.allocate_lock()
+        self.main.acquire()
+        self.gate = {}
+        self.names = {}
+        self.pending = {}
+        self.wait = {}
+        self.done = set()
+        self.errors = {}
+        self.aborting = False
+
+    def me(self):
+        return self.names.get(threading.get_ident())
+
+    def yield_point(self, label):
+        n = self.me()
+        if n is None or self.aborting:
+            return
+        self.ctx.t[n]["pc"] = label
+        self.pending[n] = label
+        self.main.release()
+        self.gate[n].acquire()
+        if self.aborting:
+            raise Abort()
+
+    def block_recv(self, sock):
+        n = self.me()
+        if n is None:
+            return
+        self.wait[n] = ("recv", sock)
+        try:
+            self.yield_point("Recv")
+        finally:
+            self.wait.pop(n, None)
+
+    def block_buf(self, f):
+        n = self.me()
+        self.wait[n] = ("buf", f)
+        try:
+            self.yield_point("BufWait")
+        finally:
+            self.wait.pop(n, None)
+
+    def enabled(self, n):
+        w = self.wait.get(n)
+        if w is None:
+            return True
+        if w[0] == "recv":
+            return w[1]._readable()
+        return w[1].owner is None
+
+
+def run_conc(scn, pa, pb, chooser, max_steps=400, probe=True):
+    """Reader thread a (program pa) and disposer thread b (program pb) on one REAL response, the server as third party
+    "e".  chooser(enabled, nstep, last) -> name.  Returns the trace for RespLife_Trace."""
+    logging.getLogger("urllib3").setLevel(logging.ERROR)
+    install_points()
+    ctx = Ctx(scn)
+    s = Sched(ctx)
+    progs = {"a": list(pa), "b": list(pb)}
+    with ctx.net:
+        ctx.pool = make_pool(ctx.net)
+        ctx.net.sched = s
+        _ACTIVE[0] = s
+        threads = {}
+        try:
+            ctx.request()
+            if ctx.resp is None:
+                raise tlc.MachineryError(f"two-thread scenario {scn}: the request failed")
+            for n in ("a", "b"):
+                ctx.t[n]["pc"] = "Idle" if progs[n] else "Done"
+
+            def body(n):
+                s.names[threading.get_ident()] = n
+                s.gate[n].acquire()
+                try:
+                    if s.aborting:
+                        raise Abort()
+                    for op in progs[n]:
+                        s.yield_point("Idle")
+                        ctx.call(n, op)
+                        ctx.t[n]["pc"] = "Idle"
+                    ctx.t[n]["pc"] = "Done"
+                except Abort:
+                    pass
+                except BaseException as ex:          # harness failure: ctx.call records every exception of the code under test
+                    s.errors[n] = repr(ex)
+                finally:
+                    s.done.add(n)
+                    if not s.aborting:
+                        s.main.release()
+
+            for n in ("a", "b"):
+                if not progs[n]:
+                    s.done.add(n)
+                    continue
+                s.gate[n] = _thread.allocate_lock()
+                s.gate[n].acquire()
+                threads[n] = threading.Thread(target=body, args=(n,), daemon=True)
+                threads[n].start()
+                s.gate[n].release()          # run up to the park before the first call
+                if not s.main.acquire(timeout=30):
+                    raise tlc.MachineryError("scheduler: thread did not reach its first yield point")
+            nextop = {n: 0 for n in progs}
+            obs, steps = [ctx.project()], []
+            last, stuck = None, False
+            unreal = None
+            while len(steps) < max_steps:
+                live = [n for n in ("a", "b") if n not in s.done]
+                if not live:
+                    break
+                en = [n for n in live if s.enabled(n)]
+                vs = ctx.net.socks[1]() if 1 in ctx.net.socks else None
+                if vs is not None and vs._feeds and vs._feeds[0][0] != "BOOM":
+                    en.append("e")
+                if not en:
+                    stuck = True
+                    break
+                pick = chooser(sorted(en), len(steps), last)
+                if pick not in en:
+                    unreal = (len(steps), pick, sorted(en))
+                    break
+                if pick == "e":
+                    vs.feed_next()
+                    steps.append(["e", "none"])
+                else:
+                    at = s.pending.get(pick)
+                    op = "none"
+                    if at == "Idle":
+                        op = progs[pick][nextop[pick]]
+                        nextop[pick] += 1
+                    steps.append([pick, op])
+                    s.gate[pick].release()
+                    if not s.main.acquire(timeout=30):
+                        raise tlc.MachineryError(f"scheduler: thread {pick} did not come back (parked at {at}, scenario {scn}, {pa}, {pb})")
+                obs.append(ctx.project())
+                last = pick
+            else:
+                raise tlc.MachineryError(f"scheduler: more than {max_steps} steps ({scn}, {pa}, {pb})")
+        finally:
+            s.aborting = True
+            _ACTIVE[0] = None
+            for n, th in threads.items():
+                if th.is_alive():
+                    try:
+                        s.gate[n].release()
+                    except RuntimeError:
+                        pass
+            for th in threads.values():
+                th.join(10)
+            ctx.net.sched = None
+        if s.errors:
+            raise tlc.MachineryError(f"scheduler: thread leaked {s.errors}")
+        out = {"fr": scn["fr"], "sv": scn["sv"], "mode": "stream", "pa": list(pa), "pb": list(pb), "steps": steps, "obs": obs,
+               "stuck": stuck, "probe": "none", "unrealised": unreal}
+        if probe and not stuck:
+            ctx.gen = ctx.resp = None
+            gc.collect()
+            out["probe"] = _probe(ctx)
+        ctx.pool.close()
     return out
